@@ -91,6 +91,18 @@ class Verifier:
             self._gdesc[key] = r["value"]
         return self._gdesc[key]
 
+    def ground_eval(self, module, src):
+        key = ("ground", module, src)
+        if key not in self.ground_cache:
+            r = oracle().req(op="eval", expr="(lambda m: eval(%r, dict(vars(m))))(importlib.import_module(%r))" % (src, PYMOD[module]))
+            if not r.get("ok"):
+                raise Unsupported("ground evaluation failed: %s: %s" % (src, r.get("error")))
+            self.ground_cache[key] = Oracle_dec(r["value"])
+        v = self.ground_cache[key]
+        if isinstance(v, list):
+            v = list(v)
+        return v
+
     def global_identity(self, d, label):
         # objects are identified by (class, a canonical label): the first label under which we met them
         # the oracle numbers objects per request, so identity across requests is by canonical global name
